@@ -480,6 +480,7 @@ int sim_read_user(FILE *f, char *buf, size_t max)
 	return (int) do_read(&srcs[id], buf, max, 0);
 }
 
+extern int __llvm_profile_write_file(void) __attribute__((weak));
 #define SIM_FD_BASE 1000
 int sim_fileno(FILE *f)
 {
@@ -1617,6 +1618,8 @@ int main(int argc, char **argv)
 				alarm((unsigned) timeout);
 				run_plan_text(body);
 				fflush(stdout);
+				if (__llvm_profile_write_file)   /* coverage builds only (tools/skeleton_coverage.py) */
+					__llvm_profile_write_file();
 				_exit(0);
 			}
 			if (pid < 0)
